@@ -405,6 +405,8 @@ func (e *env) judge(hs *historyState, st *step, f *faultPlan, md *model, prev, c
 					r.Violation("up-after-physically-destroyed:"+st.Cmd, fmt.Sprintf("store %d was declared physically destroyed and went Offline->Up by %s", id, st.Cmd), wit())
 				}
 			case p.State == metapb.StoreState_Offline && c.State == metapb.StoreState_Tombstone:
+			case p.State == metapb.StoreState_Up && c.State == metapb.StoreState_Tombstone && st.edges >= 2:
+				// two operations overlapped the two observations: Up->Offline->Tombstone
 			case p.State == metapb.StoreState_Tombstone:
 				r.Violation("tombstone-left:"+c.State.String()+":"+st.Cmd, fmt.Sprintf("tombstone store %d became %s by %s", id, c.State, st.Cmd), wit())
 			default:
@@ -505,9 +507,15 @@ func (e *env) judge(hs *historyState, st *step, f *faultPlan, md *model, prev, c
 				fid = 0
 			}
 		}
-		if isStoreKey(st.Injected.Key) {
+		if isStoreKey(st.Injected.Key) && st.skipS6 {
+			r.Count("faults_on_store_record_write", 1)
+			r.Count("failed_write_in_race_other_worker_may_change_record", 1)
+		} else if isStoreKey(st.Injected.Key) {
 			r.Count("faults_on_store_record_write", 1)
 			p, c := prev[fid], cur[fid]
+			if st.s6Base != nil {
+				p = st.s6Base[fid]
+			}
 			changed := ""
 			switch {
 			case (p == nil) != (c == nil):
@@ -527,6 +535,9 @@ func (e *env) judge(hs *historyState, st *step, f *faultPlan, md *model, prev, c
 		}
 		// what this step wrote may now differ from what is served
 		for _, w := range writes {
+			if st.noDirty {
+				break
+			}
 			if id, tail, isM := idFromKey(w.Key, storeKeyPrefix); isM && tail == "" {
 				md.dirtyMeta[id] = true
 			} else if id, _, isW := idFromKey(w.Key, weightKeyPrefix); isW {
@@ -563,8 +574,8 @@ func (e *env) judge(hs *historyState, st *step, f *faultPlan, md *model, prev, c
 	if st.Injected != nil {
 		after = "bystander-of-faulted-" + st.Cmd
 	}
-	if st.Cmd == raceTag {
-		after = raceTag
+	if st.Race != nil {
+		after = st.Cmd
 	}
 	for id, c := range cur {
 		if stored == nil {
